@@ -11,16 +11,20 @@ NOTE = ("Trusted: Lean 4.33 kernel (axioms propext, Classical.choice, Quot.sound
 
 CLAIMS = {
     "C01": dict(
-        technique="Lean 4 theorem by mutual structural induction over the residue tree (token-level merge_int refines the graft Spec for every tree of any depth/width: C01_tree_refines_spec, built on the graft lemma by simulation) + proved-sound decidable certificates evaluated on every real merge, on the Model's and on the code's own intermediate strings + RDKit molzip Spec judging",
+        technique="Lean 4 theorems by structural induction over the residue tree (token-level merge_int refines the graft Spec for every tree of any depth/width: C01_tree_refines_spec, built on the graft lemma by simulation; the binding plan of Merger.mark / merge_int over the edge list refines the per-linkage Spec over the written forest: C01_linkage_plan) + proved-sound decidable certificates evaluated on every real merge, on the Model's and on the code's own intermediate strings + RDKit molzip Spec judging",
         text="C01_tree_refines_spec: for every tree of residue strings passing the decidable check wfTree (closed strings, pairwise different markers each once on a leaf atom, "
              "no child ring label open at its marker) the token-level Model of merge_int (mergeTok, O- and N-linkages) yields a SMILES denoting exactly specTree - every residue's "
              "atoms, ordered bond events and stereo marks carried over, one glycosidic bond per linkage - and never 'no molecule'. Built on Gly.Smi.graft (C01_graft: frame lemma, "
              "renaming simulation), splice_one, nblock (N-link block), slot_preserved, loop. C01_certified_splice / C01_certified_tree / certifyObserved_sound prove the certificates sound; "
              "the driver re-plays every real merge_int (boundary strings captured from RDKit), reproduces its output text-identically and certifies the whole tree both on the Model's strings "
              "and on the strings Monomer.to_smiles really returned together with the code's own result. Independently every sampled well-formed glycan (random trees + fixed bicyclic / 4-way / N-link cases) "
-             "is compared as a stereo molecule with an RDKit molzip join of the residues converted alone.",
+             "is compared as a stereo molecule with an RDKit molzip join of the residues converted alone. "
+             "C01_linkage_plan (go_refines): the Model of Merger.mark / Merger.merge_int - recursion over the edge list of the walked tree - issues, for every syntax tree without floating fragments and "
+             "at most four children per residue, exactly the calls of the structural Spec over the written forest: per written linkage (xA-B) mark(B, marker pair k) on the parent (k = the child's place among its siblings), "
+             "root_atom_id(A) on the child, the label's anomer for a child without one of its own, ring offsets; tied by the call sequence observed inside real conversions. "
+             "C01_linking_atom(_through_substituent) over the Model of find_oxygen / __check_root_id, C01_numbering_table over the Model of enumerate_carbon.",
         note="partial: RDKit's writing of the marked residue is a boundary input (its meaning is assumed to be the token semantics Smi.sem); sanitize_smiles is validated per instance "
-             "(same sem), not proved; enumerate_carbon is modelled (tied by correspondence) and C01_numbering_table proves Model = chemistry-level numbering on the library rows; on modified residues the numbering is compared with the chemistry-level rule per residue, not proved; find_oxygen / mark / __check_root_id are judged by the molzip Spec; "
+             "(same sem), not proved; enumerate_carbon is modelled (tied by correspondence) and C01_numbering_table proves Model = chemistry-level numbering on the library rows; on modified residues the numbering is compared with the chemistry-level rule per residue, not proved; find_oxygen / __check_root_id / root_atom_id and the tree-level Merger.mark / merge_int are modelled and tied by correspondence, the RDKit edit SetAtomicNum itself is judged by the molzip Spec; floating fragments are outside C01_linkage_plan; "
              "two open known findings (numbering of 1-amino-ketoses and 2,6-anhydro sugars). " + NOTE, ref="6 C01, 14"),
     "C03": dict(
         technique="Lean 4 theorems by induction over the syntax tree (walker = pre-order numbering of the compositional reading; one node per written residue; tree shape) + correspondence",
@@ -74,9 +78,9 @@ CLAIMS.update({
         note="partial: polynomial running time is a measurement; exceptions that do escape convert by design (missing file, raising user generator) are "
              "outside the theorem. " + NOTE, ref="6 C09"),
     "C10": dict(
-        technique="Lean 4 theorems on the release gate and the walker's full accumulation + obstacle-injection runs under full=True/False",
+        technique="Lean 4 theorems on the release gate and, by induction over the written forest, on the walker's accumulation of the full flag (C10_forest_full) + obstacle-injection runs under full=True/False",
         text="C10_full_true, C10_full_false, C10_full_false_same_as_true and the pinned counterexample are proved/decided; C10_addNodeEdge_full states how the "
-             "walker accumulates the flag. Random glycans with exactly one injected obstacle are converted under both settings and judged by the Spec.",
+             "walker accumulates the flag, C10_forest_full / C10_tree_full lift it to whole forests of any shape (full after numbering = full before, every residue realised, no '?' in a label) and the code's tree_full is compared with that conjunction per glycan. Random glycans with exactly one injected obstacle are converted under both settings and judged by the Spec.",
         note="An obstacle that makes Glycan() raise instead of returning '' (unknown sugar inside a glycan) is counted, not flagged: no molecule is released and convert returns ''. " + NOTE, ref="6 C10"),
     "C11": dict(
         technique="Lean 4 theorems over a World model (logger switch, stdout, files) + call histories replayed against fresh interpreters",
@@ -86,8 +90,8 @@ CLAIMS.update({
         note="partial: the deepcopy of the parse tree before marking (merger.py) and the recipe list shared with the walker are tied by the history runs (same method repeated around get_smiles, fresh-interpreter comparison), not by the heap model. " + NOTE, ref="6 C11, 14"),
     "C12": dict(
         technique="Lean 4 theorems (all sinks render the same pairs; executor-independence under joblib's order contract) + all delivery paths x cpu_count",
-        text="C12_sinks_agree, C12_schedule_independent, C12_direct_use are proved; batches are delivered through list/file/stdout/generator/CLI with cpu_count in "
-             "{1,2,4,16,-1} and compared line by line with the Spec pairs.",
+        text="C12_sinks_agree, C12_file_replaces_old_content (whatever the output file held before, afterwards exactly this call's lines; other files untouched), C12_schedule_independent, C12_direct_use are proved; batches are delivered through list/file/stdout/generator/CLI with cpu_count in "
+             "{1,2,4,16,-1}, through every input container (glycan, glycan_list, glycan_file, glycan_generator) and their mixtures, into fresh and into already existing output files, and compared line by line with the Spec pairs; the sink Model is run on the same worlds.",
         note="partial: joblib returning results in submission order is a hypothesis of the theorem; process start-up, pickling and fd inheritance are exercised, not modelled. " + NOTE, ref="6 C12"),
     "C13": dict(
         technique="Lean 4 theorems (one differing atom of the reducing-end residue = one differing atom of the whole glycan's Spec molecule, by induction over the children: C13_one_centre_whole_glycan; decision logic: suffix wins, option fallback, start fallback) + Model/code correspondence inside Merger.merge + RDKit stereocentre diff over anomer/option/start variants",
@@ -109,15 +113,16 @@ CLAIMS.update({
              "tables. Thorough runs every library sugar x every free position x every functional-group token (54k conversions); for ~95 tokens the expected "
              "molecule is built from a hand-written fragment table that says what the token stands for and whether the O/N carries it or is replaced; "
              "for all tokens the sugar skeleton must stay a stereo-substructure; sets of 2-4 modifications are written in all orders.",
-        note="partial: which atom carries the placeholder (find_oxygen / carbon numbering, RDKit graph level) and the second reactor round are judged by the sweep, not modelled; deoxy chains ('H') and the uronic '(=O)O' chain are outside the graft certificate; two open known-finding families "
+        note="partial: which atom carries the placeholder (find_oxygen / carbon numbering: modelled in Mono/EnumC.lean and tied under C01, the RDKit edit itself not) and the second reactor round are judged by the sweep; deoxy chains ('H') and the uronic '(=O)O' chain are outside the graft certificate; two open known-finding families "
              "(O replaced instead of carrying the group for 33 tokens; positional groups on amine positions). " + NOTE, ref="6 C04"),
     "C08": dict(
         technique="Lean 4 table theorems by kernel evaluation over the complete regenerated monosaccharide tables + exhaustive library sweep judged with RDKit",
         text="C08_anomers_one_mark_pyranose/furanose: for every code whose A_/B_ rows are written in the same atom order (all but PSE, LEG, ACI, THRE - listed by the "
              "theorem) the rows are equal modulo stereo marks and differ in exactly one mark; C08_plain_rows_*, C08_tables_wellformed. The sweep covers every code x "
              "ring form x anomer x series: one anomeric centre between a/b/undefined, ring-opening reduction = alditol entry, opposite series = mirror image, "
-             "distinct molecules, ring size, class formula (hand-written table for the common classes).",
-        note="partial: that the differing mark sits on the anomeric carbon and the alditol / mirror / distinctness clauses are decided by the RDKit sweep, not yet by "
+             "distinct molecules, ring size, class formula (hand-written table for the common classes). Kernel-checked over the complete regenerated tables as well: C08_anomeric_centre_* (the differing atom is the hemiacetal carbon, graph level), "
+             "C08_ring_size (the ring closed by the row's ring bond has the tabulated size), C08_class_formula (C/H/N/O by valence rules = class table), C08_forms_same_formula (a / b / plain, pyranose / furanose rows of one code have one composition, the alditol row that plus H2), C08_erase_gives_plain, C08_all_rows_denote.",
+        note="partial: the alditol (beyond composition) / mirror-image / distinctness clauses are decided by the RDKit sweep, not by "
              "a Lean isomorphism checker; class formulas cover 13 classes, other codes only get the structural clauses. " + NOTE, ref="6 C08"),
     "C14": dict(
         technique="Lean 4 theorems over a Model of reactor_basic.py (open-form rewrites at text and at graph level by kernel evaluation over all open rows; resizing extension) tied by correspondence inside real conversions + exhaustive prefix/suffix sweep against RDKit graph operations that define each transformation",
